@@ -292,6 +292,12 @@ func (c *Client) Resume() error {
 	if c.PostResumeHook != nil {
 		err = c.PostResumeHook()
 	}
+
+	// As in Connect: without these the re-established session would neither receive anything
+	// nor notice its own loss
+	keepaliveQuit := make(chan struct{})
+	go keepalive(c.transport, c.config.KeepaliveInterval, keepaliveQuit)
+	go c.recv(keepaliveQuit)
 	return err
 }
 
